@@ -316,14 +316,13 @@ def run(ctx):
 
         t0 = time.monotonic()
 
-        def part_a_over():   # budget split only (never a verdict): leave >= 60% to part B
-            return time.monotonic() - t0 > 0.4 * ctx.soft_s
+        def part_a_over():   # budget split only (never a verdict): leave >= 40% to part B
+            return time.monotonic() - t0 > 0.6 * ctx.soft_s
 
         idx = 0
         maxlen = 3 if ctx.thorough else 2
-        for name, base, alpha in (("Z1", Z1_BASE, Z1_ALPHA), ("Z3", Z3_BASE, Z3_ALPHA), ("Z2", Z2_BASE, Z2_ALPHA)):
-            nnew = 4
-            for L in range(1, maxlen + 1):
+        for L in range(1, maxlen + 1):
+            for name, base, alpha in (("Z2", Z2_BASE, Z2_ALPHA), ("Z3", Z3_BASE, Z3_ALPHA), ("Z1", Z1_BASE, Z1_ALPHA)):
                 for seq in itertools.product(range(len(alpha)), repeat=L):
                     idx += 1
                     if not ctx.mine(idx):
